@@ -348,7 +348,7 @@ def run_cases(c, cases):
     def one(k):
         if not chunks[k]:
             return dict(classes=None, answers=[])
-        return run_impl("drive_c17.py", dict(workdir=str(wd / f"w{k}"), cases=chunks[k]), timeout=1500)
+        return run_impl("drive_c17.py", dict(workdir=str(wd / f"w{k}"), cases=chunks[k]), timeout=3000)
 
     with ThreadPoolExecutor(max_workers=nproc) as ex:
         res = list(ex.map(one, range(nproc)))
@@ -372,7 +372,7 @@ def run(c: Check):
               "this submit at >=2 different nesting depths, distinct by heap")
     c.build()
     c.props()
-    n = 1600 if c.quick else 24000
+    n = 1600 if c.quick else 20000
     cases = []
     if c.replay:
         rp = json.load(open(c.replay))["replay"]
